@@ -26,7 +26,7 @@ class C14(pw.P21Check):
     sizes = [1, 2, 3, 5, 8]
 
     def n_plans(self, tier):
-        return 3000 if tier == "quick" else 100000
+        return 8000 if tier == "quick" else 200000
 
     def time_budget(self, tier):
         return 120 if tier == "quick" else 1200
@@ -203,7 +203,10 @@ class C14(pw.P21Check):
         done = [o for o in obs["main"]["steps"] if "done" in o]
         dumps = [o["pop"] for o in obs["main"]["steps"] if o.get("op") == "dump"]
         maxa = max(a_ids) if a_ids else 0
-        return {"shape": core.hash_obj([plan["schema"], len(plan["extra"]), shared > 0, sorted(kinds), maxa % 1000 in (0, 1, 999, 998)]),
+        b_ids = [[x["id"] for x in e["model"]["insts"]] for e in plan["extra"]]
+        layout = [min(shared, 3), min(near, 3), maxa % 1000 if maxa % 1000 in (0, 1, 998, 999) else -1, [len(b) for b in b_ids],
+                  [b == sorted(b) for b in b_ids], [min(b) <= maxa if b else False for b in b_ids]]
+        return {"shape": core.hash_obj([plan["schema"], len(plan["extra"]), layout, sorted(kinds), sorted(set(p["ent"] for e in plan["extra"] for x in e["model"]["insts"] for p in x["parts"]))]),
                 "nontrivial": bool(plan["extra"]) and refs > 0 and shared > 0 and all(obs["twins_clean"]),
                 "probes": {"shared_ids": shared, "appended_refs": refs, "ids_near_multiple_of_1000": near, "two_or_more_appends": 1 if len(plan["extra"]) > 1 else 0,
                            "ref_in_aggregate": 1 if "ref-in-aggregate" in kinds else 0, "ref_in_complex": 1 if "ref-in-complex" in kinds else 0,
